@@ -22,6 +22,24 @@ def run {σ : Type} (S : Sys σ) : Nat → Nat → σ → σ
     let r := S.step s i
     if r.2 || S.force i then (S.succ r.1 i).foldl (fun acc j => run S fuel j acc) r.1 else r.1
 
+/-- any property of the state that every step keeps is kept by `run` -/
+theorem run_inv {σ : Type} (S : Sys σ) (P : σ → Prop) (hstep : ∀ s i, P s → P (S.step s i).1) :
+    ∀ (fuel i : Nat) (s : σ), P s → P (run S fuel i s) := by
+  intro fuel
+  induction fuel with
+  | zero => intro i s h; exact h
+  | succ f ih =>
+    intro i s h
+    simp only [run]
+    have h1 := hstep s i h
+    split
+    · generalize (S.step s i).1 = s1 at h1
+      generalize S.succ s1 i = l
+      induction l generalizing s1 with
+      | nil => exact h1
+      | cons a t iht => simp only [List.foldl_cons]; exact iht _ (ih a s1 h1)
+    · exact h1
+
 /-- What `run_spec` needs to know about a system.  `Inv` collects everything that stays fixed (shape of the graph,
     side invariants), `V` is the set of valid nodes, `ok s j` says that node `j`'s equation holds in `s`,
     `succF` is the (static) reader relation and `rk` a rank that decreases along it. -/
